@@ -171,6 +171,12 @@ pub fn vx_position_text(v: &Tokens, a: &str, tagged: bool) -> (r: Option<usize>)
 pub struct VxCaps { pub s1: String, pub s2: String, pub s3: String }
 #[verifier::external_body]
 pub fn vx_captures(ptn: &str, word: &str) -> (r: Option<VxCaps>) { unimplemented!() }
+// groups 1 (what is glued in front of the operator) and 2 (the operator) of ptn2, the "target is the next word" form
+pub uninterp spec fn spec_cap2(word: Seq<char>, k: int) -> Seq<char>;
+#[verifier::external_body]
+pub fn vx_captures2(ptn: &str, word: &str) -> (r: Option<VxCaps>)
+    ensures r.is_some() ==> r.unwrap().s1@ == spec_cap2(word@, 1) && r.unwrap().s2@ == spec_cap2(word@, 2)
+{ unimplemented!() }
 
 //@FN split_tokens_by_pipes
 //@FN tokens_to_redirections
@@ -219,7 +225,7 @@ split_tokens_by_pipes = Fn(T, 'split_tokens_by_pipes', ret='r',
 CAPS = [
     Rw(r'let re;[\s\S]*?if let Some\(caps\) = re\.captures\(word\) \{', 'if let Some(caps) = vx_captures(ptn1, word) {', regex=True, count=1, rule='R6',
        why='Regex::new(ptn1) + captures(word) through an uninterpreted shim; the Regex::new error path is dropped'),
-    Rw(r'let re;[\s\S]*?if let Some\(caps\) = re\.captures\(word\) \{', 'if let Some(caps) = vx_captures(ptn2, word) {', regex=True, count=1, rule='R6',
+    Rw(r'let re;[\s\S]*?if let Some\(caps\) = re\.captures\(word\) \{', 'if let Some(caps) = vx_captures2(ptn2, word) {', regex=True, count=1, rule='R6',
        why='Regex::new(ptn2) + captures(word) through an uninterpreted shim'),
     Rw(r'caps\.get\((\d)\)\.unwrap\(\)\.as_str\(\)', r'&caps.s\1', regex=True, rule='R6',
        why='capture group k as a field of the shim result (groups 1..3 of ptn1/ptn2 always participate: assumed)'),
@@ -240,6 +246,10 @@ tokens_to_redirections = Fn(P, 'tokens_to_redirections', ret='r', pre_rewrites=C
         ('C01.inv.redir.kept', '(forall|i: int| 0 <= i < tokens@.len() ==> gt_free(#[trigger] tokens@[i])) ==> '
                                '!to_be_continued && tsv(tokens_new@) == tsv(tokens@.take(__i0 as int)) && redirects@.len() == 0'),
         ('C04.inv.redir.fd', 'forall|k: int| 0 <= k < redirects@.len() ==> (#[trigger] redirects@[k]).0@ == "1"@ || redirects@[k].0@ == "2"@'),
+        # an operator whose target is the next word: the descriptor digits and the operator kept for that word are the ones
+        # glued to THIS operator (not left over from an earlier redirection of the command)
+        ('C04.inv.redir.pending_operator_is_the_previous_word',
+         'to_be_continued ==> 0 < __i0 && to_be_continued_s1@ == spec_cap2(tokens@[__i0 - 1].1@, 1) && to_be_continued_s2@ == spec_cap2(tokens@[__i0 - 1].1@, 2)'),
     ])},
     hints={'loop-0-body-entry': 'lemma_take_push(tokens@, __i0 as int); broadcast use axiom_re_gt;'},
 )
